@@ -1,1 +1,143 @@
-(* C14 stub: to be written *)
+(* C14 — Lossless operators are isometries, dissipative ones are contractions.
+   Only statements, each closed by [exact], followed by Print Assumptions.
+   norm2 / code_norm2 / dev2 / rop / rapply / rvalid / bounded: Model/Norms.v;  T_op, Phi_op, P_op, E_op: GENERATED. *)
+From Coq Require Import Reals ZArith List Bool Lra.
+From Coquelicot Require Import Coquelicot.
+From EPG Require Import Scalar State Ops CInst Synth Dft Views WfProof SynthStep Ensemble Transition Evolution CoefPhys
+  Norms NormsProofs.
+Import ListNotations.
+Local Open Scope R_scope.
+
+(* (1) what utils.get_norm sums, sum_k |F-(k)|^2 + |Z(k)|^2, is the physical norm
+   sum_k 1/2|F+(k)|^2 + 1/2|F-(k)|^2 + |Z(k)|^2 on every well-formed state matrix *)
+Theorem C14_norm_code_eq (s : sm Cops) : wf Cops s -> code_norm2 s = norm2 s.
+Proof. exact (norm_code_eq s). Qed.
+Print Assumptions C14_norm_code_eq.
+
+(* (1') code_norm2 (function view) is the sum utils.get_norm takes over the stored rows; [list_norm2] is the
+   executable form that the check evaluates at exact rationals against StateMatrix.norm *)
+Theorem C14_code_norm2_list (s : sm Cops) (n : nat) :
+  shaped Cops s n -> RtoC (code_norm2 s) = @list_norm2 Cops (st s).
+Proof. exact (code_norm2_list s n). Qed.
+Print Assumptions C14_code_norm2_list.
+
+(* (2) RF pulses, phase offsets and precession: isometries of every state matrix, all parameter values *)
+Theorem C14_T_state_isometry (alpha phi : R) (s : sm Cops) : norm2 (apply (op_T alpha phi) s) = norm2 s.
+Proof. exact (T_state_isometry alpha phi s). Qed.
+Print Assumptions C14_T_state_isometry.
+
+Theorem C14_Phi_state_isometry (phi : R) (s : sm Cops) : norm2 (apply (op_Phi phi) s) = norm2 s.
+Proof. exact (Phi_state_isometry phi s). Qed.
+Print Assumptions C14_Phi_state_isometry.
+
+Theorem C14_P_state_isometry (tau g : R) (s : sm Cops) : norm2 (apply (op_P tau g) s) = norm2 s.
+Proof. exact (P_state_isometry tau g s). Qed.
+Print Assumptions C14_P_state_isometry.
+
+(* (3) untruncated, non-merging shift by any d: isometry of every state matrix with 2n+1 states *)
+Theorem C14_S_isometry (d : Z) (s : sm Cops) (n : nat) :
+  shaped Cops s n -> norm2 (apply (OShift d None) s) = norm2 s.
+Proof. exact (S_isometry d s n). Qed.
+Print Assumptions C14_S_isometry.
+
+(* (4) relaxation never increases the norm of the deviation from equilibrium *)
+Theorem C14_E_contracts_deviation (tau T1 T2 g : R) (s : sm Cops) :
+  0 <= tau -> 0 < T1 -> 0 < T2 -> wf Cops s -> dev2 (apply (op_E tau T1 T2 g) s) <= dev2 s.
+Proof. exact (E_contracts_deviation tau T1 T2 g s). Qed.
+Print Assumptions C14_E_contracts_deviation.
+
+(* (5) spoiling never increases the norm, nor the norm of the deviation *)
+Theorem C14_spoiler_contracts (s : sm Cops) :
+  norm2 (apply OSpoil s) <= norm2 s /\ (wf Cops s -> dev2 (apply OSpoil s) <= dev2 s).
+Proof. exact (spoiler_contracts s). Qed.
+Print Assumptions C14_spoiler_contracts.
+
+(* (6) diffusion, abstract form (attenuation factors in [0,1] per phase state; D._apply structure of
+   Model/Diffusion.v): contraction of the norm, and of the deviation when Z(0) is left alone *)
+Theorem C14_D_contracts (aT aL : Z -> R) (s : sm Cops) : wf Cops s ->
+  (forall k, 0 <= aT k <= 1) -> (forall k, 0 <= aL k <= 1) ->
+  norm2 (apply_atten aT aL s) <= norm2 s.
+Proof. exact (D_contracts aT aL s). Qed.
+Print Assumptions C14_D_contracts.
+
+Theorem C14_D_contracts_deviation (aT aL : Z -> R) (s : sm Cops) : wf Cops s ->
+  (forall k, 0 <= aT k <= 1) -> (forall k, 0 <= aL k <= 1) -> aL 0%Z = 1 ->
+  dev2 (apply_atten aT aL s) <= dev2 s.
+Proof. exact (D_contracts_deviation aT aL s). Qed.
+Print Assumptions C14_D_contracts_deviation.
+
+(* (6') the GENERATED attenuation formulas (1-D, scalar D >= 0, tau >= 0, any kvalue and gradient) meet
+   the hypotheses of (6) and of the signal bound *)
+Theorem C14_diff1d_valid (tau D kv sh : R) : 0 <= tau -> 0 <= D ->
+  rvalid (RD (diff1d_aT tau D kv sh) (diff1d_aL tau D kv)) /\ diff1d_aL tau D kv 0%Z = 1.
+Proof. exact (diff1d_valid tau D kv sh). Qed.
+Print Assumptions C14_diff1d_valid.
+
+(* (7) the invariant  wf /\ equilibrium = PD /\ norm2 <= PD^2  is kept by every operator of the list
+   (E with T2 <= 2 T1) ... *)
+Theorem C14_bounded_step (PD : R) (o : rop) (s : sm Cops) : rvalid o -> bounded PD s -> bounded PD (rapply o s).
+Proof. exact (bounded_step PD o s). Qed.
+Print Assumptions C14_bounded_step.
+
+(* ... hence by every program *)
+Theorem C14_signal_le_PD_run (PD : R) (ops : list rop) (s : sm Cops) :
+  List.Forall rvalid ops -> bounded PD s -> bounded PD (rrun ops s).
+Proof. exact (signal_le_PD_run PD ops s). Qed.
+Print Assumptions C14_signal_le_PD_run.
+
+(* (8) |F0|^2 <= norm2 *)
+Theorem C14_F0_le_norm (s : sm Cops) : wf Cops s -> cnorm2 (F0 Cops s) <= norm2 s.
+Proof. exact (F0_le_norm s). Qed.
+Print Assumptions C14_F0_le_norm.
+
+(* (9) starting from equilibrium with density PD >= 0, no program yields |F0| > PD *)
+Theorem C14_signal_le_PD (PD : R) (ops : list rop) : 0 <= PD -> List.Forall rvalid ops ->
+  Cmod (F0 Cops (rrun ops (@init Cops (RtoC PD)))) <= PD.
+Proof. exact (signal_le_PD PD ops). Qed.
+Print Assumptions C14_signal_le_PD.
+
+(* (10) Parseval: for a principal N-th root of unity w on the unit circle, N > 2n, the squared norm is the
+   ensemble mean over the N isochromats (dephasing factors w^m) of the squared weighted length of
+   M(w^m) = sum_k w^(m k) state(k) *)
+Theorem C14_norm_is_rms (w wi : C) (wwi : Cmult w wi = RtoC 1) (wconj : Cconj w = wi) (N : nat)
+  (principal : forall j, (j <> 0)%Z -> (- Z.of_nat N < j < Z.of_nat N)%Z ->
+      sumn Cops N (fun m => zpow Cops w wi (j * Z.of_nat m)%Z) = @k0 Cops)
+  (s : sm Cops) (n : nat) : shaped Cops s n -> (2 * n < N)%nat ->
+  INR N * norm2 s =
+  sumn Rops N (fun m => wnorm2 (M Cops (zpow Cops w wi (Z.of_nat m)) (zpow Cops w wi (- Z.of_nat m)) s)).
+Proof. exact (norm_is_rms w wi wwi wconj N principal s n). Qed.
+Print Assumptions C14_norm_is_rms.
+
+(* ... such a w exists for every N (exp(2 pi i / N)): no hypothesis left *)
+Theorem C14_norm_is_rms_omega (N : nat) (s : sm Cops) (n : nat) : shaped Cops s n -> (2 * n < N)%nat ->
+  norm2 s = / INR N *
+  sumn Rops N (fun m => wnorm2 (M Cops (zpow Cops (omega N) (omega_inv N) (Z.of_nat m))
+                                      (zpow Cops (omega N) (omega_inv N) (- Z.of_nat m)) s)).
+Proof. exact (norm_is_rms_omega N s n). Qed.
+Print Assumptions C14_norm_is_rms_omega.
+
+(* ... and M(w^m) of the final state IS isochromat m simulated independently (C01): the norm is the RMS
+   magnetisation length of the ensemble, for every untruncated program of valid operators *)
+Theorem C14_norm_is_rms_of_isochromats (N : nat) (ops : list (op Cops)) (s0 : sm Cops) :
+  wf Cops s0 -> List.Forall (wf_op Cops) ops -> no_trunc_run Cops ops s0 ->
+  (2 * nstate (run ops s0) < N)%nat ->
+  norm2 (run ops s0) =
+  / INR N * sumn Rops N (fun m => wnorm2 (Ensemble.iso Cops (omega N) (omega_inv N) m ops s0)).
+Proof. exact (norm_is_rms_of_isochromats N ops s0). Qed.
+Print Assumptions C14_norm_is_rms_of_isochromats.
+
+(* the weighted length of (M+, M-, Mz) = (x + i y, x - i y, z) is the squared length of (x, y, z) *)
+Theorem C14_wnorm2_of_xyz (x y z : R) : wnorm2 (of_xyz (x, y, z)) = x * x + y * y + z * z.
+Proof. exact (wnorm2_of_xyz x y z). Qed.
+Print Assumptions C14_wnorm2_of_xyz.
+
+(* non-vacuity: a concrete program satisfies the side conditions *)
+Example C14_nonvacuous :
+  List.Forall rvalid [RT 30 10; RS 1; RE 10 1000 100 0; RSpoil; RD (diff1d_aT 5 1 1 0) (diff1d_aL 5 1 1); RP 2 3; RPhi 4; RReset; RWait]
+  /\ bounded 1 (@init Cops (RtoC 1)).
+Proof.
+  split; [|exact (bounded_init 1)].
+  repeat (apply List.Forall_cons); try apply List.Forall_nil; try exact I.
+  - cbn. lra.
+  - apply (diff1d_valid 5 1 1 0); lra.
+Qed.
